@@ -21,13 +21,13 @@ from .. import session
 
 PROP = "C13"
 RULE = (
-    "histories of 4-8 steps; step = optional edit (change the outsourced data of a test, add a test, remove a test, add a second file, give two tests equal payloads) + one real session with "
+    "histories of 4-8 steps; step = optional edit (change the outsourced data of a test, add a test, remove a test, add a second file, give two tests equal payloads, change hash-length in pyproject.toml, hand-shorten the hash prefix of a reference) + one real session with "
     "flags drawn from {none, create, fix, trim, create+fix, all four, review with 4 answers, disable}, optionally restricted to one test file; settings hash-length in {1,4,12,64,80} x "
     "storage-dir in {default, relative, absolute} x payload kinds {str, bytes, custom suffix}; case = (history, step); non-trivial = the step created, persisted or removed a stored file; "
     "distinct = (settings, flags, edit kind, storage events observed)."
 )
 ASSUMPTIONS = [
-    "reference/data consistency (bytes behind a reference == outsourced data) is asserted for hash-length >= 12; shorter prefixes collide by design ('the hash should be long enough'), for them the ambiguity must raise",
+    "reference/data consistency (bytes behind a reference == outsourced data) is asserted for references with at least 6 hash digits; shorter prefixes collide by design ('the hash should be long enough'), for them the ambiguity must raise",
     "a test file 'takes part' in a session when it is collected and run (files restricted away on the command line do not)",
 ]
 
@@ -120,9 +120,18 @@ def matches(ref, name):
     return name.startswith(h) and name.endswith(sfx) and "-new" not in name
 
 
-def run_history(rng, args, out, C, hidx):
+SCRIPTS = [
+    (8, [("none", "create"), ("change_hash_length:16", "trim"), ("none", "none"), ("none", "disable")]),
+    (12, [("none", "all"), ("shorten_reference", "trim"), ("none", "none")]),
+    (12, [("none", "create,fix"), ("shorten_reference", "all"), ("change_hash_length:64", "trim"), ("none", "none")]),
+]
+
+
+def run_history(rng, args, out, C, hidx, script=None):
     hash_length = rng.choice([1, 4, 12, 12, 64, 80])
     sd_kind = rng.choice(["default", "relative", "absolute"])
+    if script:
+        hash_length = script[0]
     settings = {"hash_length": hash_length, "storage_dir": sd_kind}
     w = World(rng, dict(settings))
     proj = session.Project({}, with_vp=False)
@@ -137,8 +146,14 @@ def run_history(rng, args, out, C, hidx):
             storage_rel = "abs_store/external"
         proj.write({"pyproject.toml": "\n".join(pp) + "\n"})
         steps = []
-        for step in range(rng.randint(4, 8)):
-            edit = rng.choice(["none", "change_data", "change_data", "add_test", "remove_test", "add_file", "equal_payloads"]) if step else "none"
+        for step in range(len(script[1]) if script else rng.randint(4, 8)):
+            edit = rng.choice(["none", "change_data", "change_data", "add_test", "remove_test", "add_file", "equal_payloads", "change_hash_length", "shorten_reference"]) if step else "none"
+            forced_len = None
+            if script:
+                edit, forced_flag = script[1][step]
+                if ":" in edit:
+                    edit, forced_len = edit.split(":")
+                    forced_len = int(forced_len)
             fnames = list(w.files)
             f0 = rng.choice(fnames)
             if edit == "change_data" and w.files[f0]:
@@ -154,11 +169,28 @@ def run_history(rng, args, out, C, hidx):
             elif edit == "equal_payloads" and len(fnames) > 1:
                 src_t = rng.choice(list(w.files["test_a.py"].values()))
                 w.add_test("test_b.py", payload=src_t["payload"])
+            elif edit == "change_hash_length":
+                hash_length = forced_len or rng.choice([x for x in (4, 8, 12, 16, 64, 80) if x != hash_length])
+                pp[1] = f"hash-length={hash_length}"
+                proj.write({"pyproject.toml": "\n".join(pp) + "\n"})
+            elif edit == "shorten_reference":
+                # a hand-shortened (still unique) hash prefix is a valid reference
+                cands = [t for t in w.files[f0].values() if t["arg"] and t["arg"].startswith("external(")]
+                if cands:
+                    t = rng.choice(cands)
+                    ref = ast.literal_eval(t["arg"][len("external(") : -1])
+                    m = re.fullmatch(r"([0-9a-fA-F]*)\*?(\.[a-zA-Z0-9]*)", ref)
+                    if m and len(m.group(1)) > 8:
+                        t["arg"] = f'external("{m.group(1)[: rng.choice([6, 7, 8])]}*{m.group(2)}")'
             for fname in w.files:
                 proj.write({fname: w.source(fname)})
             fname_flag, fargs, stdin = rng.choice(FLAGSETS)
+            if edit in ("change_hash_length", "shorten_reference") and rng.random() < 0.6:
+                fname_flag, fargs, stdin = FLAGSETS[3] if rng.random() < 0.5 else FLAGSETS[5]  # trim / all
+            if script:
+                fname_flag, fargs, stdin = next(f for f in FLAGSETS if f[0] == forced_flag)
             only = None
-            if len(w.files) > 1 and rng.random() < 0.3:
+            if len(w.files) > 1 and rng.random() < 0.3 and not script:
                 only = rng.choice(list(w.files))
             sargs = list(fargs) + ([only] if only else [])
             env = {"FORCE_COLOR": "true"} if stdin else None
@@ -215,7 +247,7 @@ def run_history(rng, args, out, C, hidx):
                 if any(matches(ref, n) for ref in refs_part):
                     out["violations"].append({"kind": "persisted-file-removed-although-referenced-by-a-participating-file", "detail": {**base, "name": n, "references": refs_part}, "witness": wit, "finding": None})
             # I2 bytes behind consistent references
-            if hash_length >= 12:
+            if True:
                 for fname in participating:
                     for tname, t in w.files.get(fname, {}).items():
                         arg = t["arg"]
@@ -227,6 +259,8 @@ def run_history(rng, args, out, C, hidx):
                         m = re.fullmatch(r"([0-9a-fA-F]*)\*?(\.[a-zA-Z0-9]*)", ref)
                         if not m or not full.startswith(m.group(1)):
                             continue  # reference belongs to older data (pending fix)
+                        if len(m.group(1)) < 6:
+                            continue  # short prefixes collide by design
                         C["references_checked"] += 1
                         cands = [n for n in after if matches(ref, n)]
                         if not cands and any(matches(ref, n) for n in w.settings.get("_trimmed", ())):
@@ -330,6 +364,10 @@ def run_shard(args):
     for h in range(nhist):
         rng = random.Random(f"{args.seed}/{PROP}/{args.shard}/{h}")
         run_history(rng, args, out, C, h)
+    if args.shard < len(SCRIPTS):
+        rng = random.Random(f"{args.seed}/{PROP}/script/{args.shard}")
+        run_history(rng, args, out, C, 1000 + args.shard, script=SCRIPTS[args.shard])
+        C["scripted_histories"] = C.get("scripted_histories", 0) + 1
     if args.shard % 4 == 0:
         lookup_probes(out, C)
     out["signatures"] = sorted(out["signatures"])
